@@ -13,6 +13,9 @@
 (*     `bool`, `list` (iteration), `open` (property prescribes nothing:    *)
 (*     rejection or the given value), `alts` (several admissible values),  *)
 (*     `nz` (ingredients of the n(z) formula).                             *)
+(* With Focus = TRUE an operation must use the newest container and a      *)
+(* history is only extended below a step that produced a container, i.e.   *)
+(* the explored histories are the genuine compositions op_n(...op_1(x)).   *)
 (* The driver (harness/containers.py, checks/c17.py, checks/c04.py)        *)
 (* executes the same history on the real objects and compares, after each  *)
 (* step, the result AND every older object of the workspace (operations    *)
@@ -130,13 +133,14 @@ NP(a) == IF a.k \in DataLevels THEN Len(a.samples)
 MI(m) == CASE m = "x" -> 0 [] m = "dd" -> 0 [] m = "dr" -> 1
            [] m = "rd" -> 2 [] m = "rr" -> 3
 
-(* deterministic small contents; seed 0 = all-zero counts *)
+(* deterministic, irregular small contents; seed 0 = all-zero counts *)
+Mix(x) == ((x * x * 7 + x * 13 + 5) \div 11) % 97
 CntVal(seed, mi, b, i, j, auto) ==
     IF seed = 0 \/ (auto /\ j < i) THEN 0
-    ELSE (seed * 7 + mi * 5 + b * 3 + i * 2 + j + i * j + mi * j) % 3
-SwVal(seed, mi, side, b, i, auto) ==
-    1 + ((seed + mi + (IF auto THEN 0 ELSE 2 * side + mi * side) + b + i) % 2)
-DVal(seed, k, b) == ((seed * 3 + k * 4 + b * 5 + k * b) % 7) - 2
+    ELSE Mix(seed * 131 + mi * 37 + b * 17 + i * 7 + j * 3) % 3
+SwVal(seed, mi, side, b, i, auto) ==     \* an autocorrelation has one catalog only
+    1 + (Mix(seed * 71 + mi * 29 + (IF auto THEN 1 ELSE side) * 11 + b * 5 + i * 3) % 2)
+DVal(seed, k, b) == (Mix(seed * 53 + k * 19 + b * 7) % 7) - 2
 
 BaseEdges(nb) == [k \in 1..(nb + 1) |-> ((k - 1) * k) \div 2]  \* 0 1 3 6 10
 
@@ -345,7 +349,7 @@ AddOf(a, b, sign) ==
          THEN (IF "AddDropsMembers" \in Deviations /\ (DOMAIN a.parts) \subseteq (DOMAIN b.parts)
                    /\ SameWeights(a, b)
                THEN RVal(Combine(a, b, 1, DOMAIN a.parts))
-               ELSE RRej({"TypeError"}))
+               ELSE RRej({"TypeError", "ValueError"}))
     ELSE IF ~SameWeights(a, b)
          THEN ROpen(Combine(a, b, 1, DOMAIN a.parts), {"ValueError"})  \* library rejects
     ELSE RVal(Combine(a, b, 1, DOMAIN a.parts))
@@ -639,6 +643,9 @@ RedshiftCFOf(cross, s, rmem, umem) ==
         su == SampleOrNull(umem, AutoCF(cross, s.seed + 2, umem))
     IN  IF sc.out \in {"open"} \/ sr.out \in {"open"} \/ su.out \in {"open"}
         THEN ROpen(Null, {"TypeError", "EstimatorError"})
+        ELSE IF sc.out = "alts"   \* DD/DR-1 or DD/RD-1: a 4th item = the other admissible w_sp
+        THEN LET r == RedshiftCDOf(sc.v, sr.v, su.v) IN
+             IF r.out = "nz" THEN RNz(Append(r.items, sc.items[2])) ELSE r
         ELSE RedshiftCDOf(sc.v, sr.v, su.v)
 AutoMems == {{}, {"dr"}, {"dr", "rr"}}
 RedshiftCF(i, rmem, umem) ==
@@ -658,8 +665,8 @@ RedshiftCDVar(i, var) ==
     /\ Focused(i, i) /\ ws[i].k = "CD" /\ var \in {"counts", "edges", "nbins", "npatch"}
     /\ Step(HEntry("RedshiftCDVar", i, 0, var, NoSel, NoScalar, FALSE),
             WithArgs(RedshiftCDOf(ws[i], VariantOf(ws[i], var), Null), <<VariantOf(ws[i], var)>>))
-Normalise(i, cls) ==
-    /\ Focused(i, i) /\ ws[i].k = "CD"
+Normalise(i, cls) ==     \* integer-valued data only (32-bit rationals)
+    /\ Focused(i, i) /\ ws[i].k = "CD" /\ AllDefined(ws[i]) /\ ExactData(ws[i])
     /\ Step(HEntry("Normalise", i, 0, cls, NoSel, NoScalar, FALSE), NormaliseOf(ws[i], cls))
 Construct(cls) ==
     /\ hist = <<>> /\ cls \in ShapeClasses(ws[1].k)
@@ -824,7 +831,7 @@ EstimatorLaw ==
               /\ ("rr" \notin M /\ "dr" \in M /\ "rd" \in M => r.out = "alts")
               /\ ("rr" \in M /\ "dr" \notin M => r.out = "open")
 IntegralIsOne ==
-    \A a \in {c \in Containers : c.k = "CD"} : \A cls \in {"nz", "hist"} :
+    \A a \in {c \in Containers : c.k = "CD" /\ AllDefined(c) /\ ExactData(c)} : \A cls \in {"nz", "hist"} :
         NormaliseOf(a, cls).out = "val" => Integral(NormaliseOf(a, cls).v) = RInt(1)
 (* n(z): an absent autocorrelation enters as 1; all three share binning and samples *)
 RedshiftLaw ==
